@@ -84,7 +84,14 @@ theorem field_rt_scaled_so (o : Opts) (ds : List Desc) (msg : Message) (fld : Fi
     rcases h pm hpm p hp with h | h
     · rw [hsc] at h; cases h
     · exact h
+  have hns : (p.bt == btString) = false := by
+    cases hfv : fld.value <;> rw [hfv] at hv hi <;> simp [int32Scalar] at hi <;>
+      simp only [scalarOK, Bool.not_false, Bool.true_and, Bool.and_eq_true, beq_iff_eq, decide_eq_true_eq, btIsUint8, Bool.or_eq_true] at hv <;>
+      first
+        | (obtain ⟨h1, _⟩ := hv; rw [h1]; decide)
+        | (obtain ⟨h1 | h1, _⟩ := hv <;> rw [h1] <;> decide)
+        | (obtain ⟨((h1 | h1) | h1) | h1, _⟩ := hv <;> rw [h1] <;> decide)
   exact field_rt_scaled Arith.so o ds msg fld pm p hpm hnum hn hp hfn hdeg hraw hsc hsub harr hb
-    (isIntScalar_of_int32Scalar hi) (arith_so_profile p.bt fld.value hv ty pat hi (p.scale, p.offset) hpair)
+    (isIntScalar_of_int32Scalar hi) hns (arith_so_profile p.bt fld.value hv ty pat hi (p.scale, p.offset) hpair)
 
 end Fit.Csv
